@@ -153,7 +153,7 @@ Record TLoc (ops : list (N * list N)) (t : transfer) (acc : list (N * list N)) :
   tl_recvd : N.of_nat (length acc) <= t_recvd t;
   tl_active : is_active (t_state t) = true -> t_next t <= t_nr t /\ t_recvd t < t_nr t;
   tl_complete : t_state t = Complete ->
-                t_recvd t = N.of_nat (length acc) /\ (t_next t = t_nr t + 1 \/ t_nr t = u64max) /\ t_size t = t_payload t;
+                t_recvd t = N.of_nat (length acc) /\ (t_next t = t_nr t + 1 \/ t_nr t = u64max);
   tl_d1 : 0 < t_cap t -> is_active (t_state t) = true -> t_data t = concat (map snd acc);
   tl_d2 : t_data t = [] \/ t_data t = concat (map snd acc);
   tl_d3 : t_cap t = 0 -> t_data t = [];
@@ -208,12 +208,14 @@ Record flda_post (t t' : transfer) (acc acc' : list (N * list N)) (pnr : N) (raw
   fp_bs_le : t_bs t <= t_bs t';
   fp_bs_pos : 0 < t_bs t -> t_bs t' = t_bs t;
   fp_inactive : is_active (t_state t) = false ->
-                t_state t' = t_state t /\ ch = false /\ acc' = acc /\ t_data t' = t_data t /\ t_size t' = t_size t;
+                t_state t' = t_state t /\ ch = false /\ acc' = acc /\ t_data t' = t_data t /\ t_size t' = t_size t /\
+                t_payload t' = t_payload t;
   fp_nochange : ch = false -> t_state t' = t_state t;
   fp_ms : t_state t' = MissingStart -> t_state t = MissingStart;
   fp_started : t_state t' = Started -> t_state t = Started;
   fp_size_active : is_active (t_state t') = true -> t_size t' = t_size t;
-  fp_size_complete : t_state t' = Complete -> is_active (t_state t) = true -> t_size t = 0 \/ t_size t = t_size t';
+  fp_size_complete : t_state t' = Complete -> is_active (t_state t) = true ->
+                     (t_size t = 0 \/ t_size t = t_size t') /\ t_size t' = t_payload t' /\ t_next t' = t_nr t + 1;
   fp_acc : acc' = acc \/
            (acc' = acc ++ [(pnr, raw)] /\ pnr = t_next t /\ (lenN raw = t_bs t' \/ (pnr = t_nr t /\ lenN raw < t_bs t')))
 }.
@@ -235,21 +237,22 @@ Proof.
   { unfold t1. destruct ((pnr =? 1) && (t_bs t =? 0)); [|exact HT].
     destruct HT as [H1 H2 H3 H4 H5 H6 H7 H8 H9 H10 H11]. constructor; cbn; auto. }
   assert (Hst : t_key t1 = t_key t /\ t_name t1 = t_name t /\ t_nr t1 = t_nr t /\ t_saved t1 = t_saved t /\
-                t_cap t1 = t_cap t /\ t_state t1 = t_state t /\ t_data t1 = t_data t /\ t_size t1 = t_size t /\ t_next t1 = t_next t).
+                t_cap t1 = t_cap t /\ t_state t1 = t_state t /\ t_data t1 = t_data t /\ t_size t1 = t_size t /\ t_next t1 = t_next t
+                /\ t_payload t1 = t_payload t).
   { unfold t1. destruct ((pnr =? 1) && (t_bs t =? 0)); cbn; repeat split; reflexivity. }
-  destruct Hst as [Hk [Hn [Hnr [Hsv [Hcap [Hstate [Hdata [Hsize Hnext]]]]]]]].
+  destruct Hst as [Hk [Hn [Hnr [Hsv [Hcap [Hstate [Hdata [Hsize [Hnext Hpayl]]]]]]]]].
   clearbody t1.
   destruct (is_active (t_state t1)) eqn:Eact.
   2:{ inversion H; subst t' ch. exists acc. split; [apply TLoc_weaken; exact Ht1|].
       constructor; try tauto; try congruence; try lia;
-        try (intros Hc; rewrite Hc in Eact; discriminate); try (intros _; repeat split; congruence). }
+        try (intros Hc; rewrite Hc in Eact; discriminate); try (intros _; repeat split; congruence);
+        try (intros; congruence). }
   assert (Eact0 : is_active (t_state t) = true) by congruence.
   destruct (true && (0 <? pnr) && (pnr <? t_next t1)) eqn:Edup.
   { (* duplicate of an already received package *)
     inversion H; subst t' ch. exists acc. split; [apply TLoc_weaken; exact Ht1|].
-    constructor; try tauto; try congruence; try lia.
-    - intros Hc. congruence.
-    - intros _ _. right. congruence. }
+    constructor; try tauto; try congruence; try lia; try (intros; congruence);
+      try (intros Hc; rewrite Hc in Eact; discriminate). }
   unfold add_chk in H.
   destruct (t_recvd t1 + 1 <=? u64max) eqn:Er; cbn [bind] in H; [|discriminate].
   destruct HT as [_ _ _ _ _ _ _ _ _ _ _].
@@ -265,6 +268,9 @@ Proof.
     { apply orb_true_iff in Esz. destruct Esz as [Esz|Esz]; [left; apply N.eqb_eq; exact Esz|right].
       apply andb_true_iff in Esz. destruct Esz as [Ea Eb]. apply N.eqb_eq in Ea. apply N.ltb_lt in Eb. split; [congruence|exact Eb]. }
     destruct (t_next t1 + 1 <=? u64max) eqn:En; cbn [bind] in H; [|discriminate].
+    change (t_payload (set_recvd (t_recvd t1 + 1) t1)) with (t_payload t1) in H.
+    change (t_cap (set_recvd (t_recvd t1 + 1) t1)) with (t_cap t1) in H.
+    change (t_data (set_recvd (t_recvd t1 + 1) t1)) with (t_data t1) in H.
     destruct (t_payload t1 + lenN raw <=? usizemax) eqn:Epl; cbn [bind] in H; [|discriminate].
     set (t2 := set_data _ _) in H.
     assert (HT2 : forall st' sz', 
@@ -281,7 +287,7 @@ Proof.
       - intros Ha. destruct Hc as [[-> [Hc1 _]]|[[-> _]|[-> _]]]; [|discriminate|discriminate]. lia.
       - intros ->. destruct Hc as [[Hc _]|[[Hc _]|[_ [Hc1 Hc2]]]]; [rewrite <- Hc in Eact; discriminate|discriminate|].
         rewrite app_length. cbn. repeat split; try lia.
-      - intros Hcap Ha. rewrite concat_map_snd_snoc. cbn. apply N.ltb_lt in Hcap. rewrite Hcap. rewrite (S8 (proj1 (N.ltb_lt _ _) Hcap) Eact). reflexivity.
+      - intros Hc0 Ha. rewrite concat_map_snd_snoc. cbn. rewrite (S8 Hc0 Eact). apply N.ltb_lt in Hc0. rewrite Hc0. reflexivity.
       - rewrite concat_map_snd_snoc. cbn. destruct (0 <? t_cap t1) eqn:Ec.
         + right. apply N.ltb_lt in Ec. rewrite (S8 Ec Eact). reflexivity.
         + left. apply N.ltb_ge in Ec. apply S10. lia.
@@ -293,53 +299,440 @@ Proof.
     { unfold t2. cbn. repeat split; congruence. }
     destruct Hfr as [F1 [F2 [F3 [F4 [F5 [F6 [F7 [F8 [F9 [F10 F11]]]]]]]]]].
     exists (acc ++ [(pnr, raw)]).
+    assert (Hlast : acc ++ [(pnr, raw)] = acc \/
+                    acc ++ [(pnr, raw)] = acc ++ [(pnr, raw)] /\ pnr = t_next t /\
+                    (lenN raw = t_bs t1 \/ pnr = t_nr t /\ lenN raw < t_bs t1)).
+    { right. split; [reflexivity|]. split; [congruence|]. rewrite Hnr in Hsz. exact Hsz. }
     destruct H as [[-> [-> [Ha Hb]]]|[[-> [-> Ha]]|[-> [-> [Ha Hb]]]]].
     + split.
       * replace (set_state Complete (set_size (t_payload t2) t2)) with (set_state Complete (set_size (t_payload t1 + lenN raw) t2)) by (rewrite F11; reflexivity).
         apply HT2. right. right. repeat split; lia.
-      * constructor; cbn; try congruence; try lia.
-        -- intros Hc. congruence.
-        -- intros Hc. congruence.
-        -- intros _ _. rewrite F8, F11 in Hb. rewrite F11. lia.
-        -- right. split; [reflexivity|]. split; [congruence|]. rewrite F6. rewrite Hnr in Hsz. exact Hsz.
+      * constructor; cbn; try congruence; try lia; try (intros; congruence); try (intros; lia); try exact Hlast.
     + split.
       * replace (set_state Incomplete t2) with (set_state Incomplete (set_size (t_size t1) t2)).
         2:{ unfold t2. destruct t1; reflexivity. }
         apply HT2. right. left. auto.
-      * constructor; cbn; try congruence; try lia.
-        -- intros Hc. congruence.
-        -- intros Hc. congruence.
-        -- right. split; [reflexivity|]. split; [congruence|]. rewrite F6. rewrite Hnr in Hsz. exact Hsz.
+      * constructor; cbn; try congruence; try lia; try (intros; congruence); try (intros; lia); try exact Hlast.
     + split.
       * replace t2 with (set_state (t_state t1) (set_size (t_size t1) t2)) at 1.
         2:{ unfold t2. destruct t1; reflexivity. }
         apply HT2. left. repeat split; lia.
-      * constructor; try congruence; try lia.
-        -- intros Hc. congruence.
-        -- intros Hc. rewrite Hc in Eact0. discriminate.
-        -- right. split; [reflexivity|]. split; [congruence|]. rewrite F6. rewrite Hnr in Hsz. exact Hsz.
+      * constructor; try congruence; try lia; try (intros; congruence); try (intros; lia); try exact Hlast.
+        intros Hc. rewrite F7 in Hc. rewrite Hc in Eact. discriminate.
   - (* not accepted: counted only *)
     cbn [bind] in H. apply check_finished_false_spec in H. cbn [t_nr t_next t_recvd t_size t_payload set_recvd] in H.
     exists acc.
     assert (HT2 : forall st', (st' = t_state t1 /\ t_recvd t1 + 1 < t_nr t1 \/ st' = Incomplete) ->
                               TLoc (ops ++ [(pnr, raw)]) (set_state st' (set_recvd (t_recvd t1 + 1) t1)) acc).
-    { intros st' Hc. constructor; cbn; auto.
-      - apply sublist_app_r. exact S1.
-      - lia.
-      - intros Ha. destruct Hc as [[-> Hc]|->]; [lia|discriminate].
-      - intros ->. destruct Hc as [[Hc _]|Hc]; [rewrite <- Hc in Eact; discriminate|discriminate].
-      - intros Hcap Ha. destruct Hc as [[-> Hc]|->]; [auto|discriminate].
-      - intros ->. destruct Hc as [[Hc _]|Hc]; [auto|discriminate]. }
+    { intros st' Hc. constructor; cbn; auto; try lia.
+      all: try (apply sublist_app_r; exact S1).
+      all: try (intros Ha; destruct Hc as [[-> Hc]| ->]; [lia|discriminate]).
+      all: try (intros ->; destruct Hc as [[Hc _]|Hc]; [rewrite <- Hc in Eact; discriminate|discriminate]).
+      all: try (intros Hc0 Ha; destruct Hc as [[-> Hc]| ->]; [auto|discriminate]).
+      all: try (intros ->; destruct Hc as [[Hc _]|Hc]; [auto|discriminate]). }
     destruct H as [[-> [-> [Ha Hb]]]|[[-> [-> Ha]]|[-> [-> [Ha Hb]]]]].
     + exfalso. lia.
     + split; [apply HT2; right; reflexivity|].
-      constructor; cbn; try congruence; try lia; try tauto.
-      * intros Hc. congruence.
-      * intros Hc. congruence.
+      constructor; cbn; try congruence; try lia; try tauto; try (intros; congruence); try (intros; lia).
     + split.
       * replace (set_recvd (t_recvd t1 + 1) t1) with (set_state (t_state t1) (set_recvd (t_recvd t1 + 1) t1)) by (destruct t1; reflexivity).
         apply HT2. left. split; [reflexivity|lia].
-      * constructor; cbn; try congruence; try lia; try tauto.
-        -- intros Hc. congruence.
-        -- intros Hc. rewrite Hc in Eact0. discriminate.
+      * constructor; cbn; try congruence; try lia; try tauto; try (intros; congruence); try (intros; lia).
+        intros Hc. rewrite Hc in Eact. discriminate.
+Qed.
+
+(* ------------------------------------------------------------------ what the log says about a key *)
+(* the call of add_flda a message leads to: key, package number, payload *)
+Definition flda_op (c : cfg) (m : msg) : option (key * (N * list N)) :=
+  match classify c m with
+  | KFlda => match flda_args (m_args m) with
+             | Some (serial, pnr, raw) => Some ((m_ecu m, m_lc m, serial), (pnr, raw))
+             | None => None
+             end
+  | _ => None
+  end.
+Definition ops_of (c : cfg) (k : key) (m : msg) : list (N * list N) :=
+  match flda_op c m with Some (k', op) => if key_eqb k k' then [op] else [] | None => [] end.
+(* all (package number, payload) pairs the log holds for key k, in log order *)
+Definition ops_for (c : cfg) (k : key) (ms : list msg) : list (N * list N) := flat_map (ops_of c k) ms.
+Lemma ops_for_app c k a b : ops_for c k (a ++ b) = ops_for c k a ++ ops_for c k b.
+Proof. apply flat_map_app. Qed.
+Lemma ops_for_snoc c k a m : ops_for c k (a ++ [m]) = ops_for c k a ++ ops_of c k m.
+Proof. rewrite ops_for_app. cbn. rewrite app_nil_r. reflexivity. Qed.
+
+(* an announcement that creates a transfer *)
+Definition flst_of (c : cfg) (m : msg) : option (key * flst) :=
+  match classify c m with
+  | KFlst => let f := parse_flst (m_args m) in
+             if (0 <? f_nr f) && (0 <? f_bs f) then Some ((m_ecu m, m_lc m, f_serial f), f) else None
+  | _ => None
+  end.
+
+(* every package has the announced size, the one numbered nr_packages may be shorter *)
+Definition sizes_ok (bs nr : N) (acc : list (N * list N)) : Prop :=
+  Forall (fun op => if fst op =? nr then lenN (snd op) <= bs else lenN (snd op) = bs) acc.
+
+(* provenance: announced by a FLST message of the log, or recovered from a first package *)
+Definition Announced (c : cfg) (pre : list msg) (t : transfer) (acc : list (N * list N)) : Prop :=
+  exists m f, In m pre /\ flst_of c m = Some (t_key t, f) /\ t_name t = f_name f /\ t_nr t = f_nr f /\ t_bs t = f_bs f /\
+    0 < f_bs f /\ 0 < f_nr f /\ t_state t <> MissingStart /\
+    (t_state t = Started -> t_size t = f_size f) /\
+    (t_state t = Complete -> (f_size f = 0 \/ f_size f = t_size t) /\ t_size t = t_payload t /\ t_next t = t_nr t + 1) /\
+    sizes_ok (f_bs f) (f_nr f) acc.
+Definition Recovered (t : transfer) (acc : list (N * list N)) : Prop :=
+  t_nr t = u64max /\ t_name t = MISSING_FLST /\ t_state t <> Started /\ (t_state t = MissingStart -> t_size t = 0) /\
+  (t_state t = Complete -> t_size t = t_payload t) /\ Forall (fun op => lenN (snd op) <= t_bs t) acc.
+Definition Prov (c : cfg) (pre : list msg) (t : transfer) (acc : list (N * list N)) : Prop :=
+  Announced c pre t acc \/ Recovered t acc.
+
+Lemma Prov_weaken c pre x t acc : Prov c pre t acc -> Prov c (pre ++ x) t acc.
+Proof.
+  intros [[m [f [H1 H2]]]|H]; [left|right; exact H].
+  exists m, f. split; [apply in_or_app; left; exact H1|exact H2].
+Qed.
+
+Lemma Prov_add_flda c pre t t' acc acc' pnr raw ch :
+  Prov c pre t acc -> flda_post t t' acc acc' pnr raw ch -> Prov c pre t' acc'.
+Proof.
+  intros HP [K1 K2 K3 K4 K5 K6 K7 K8 K9 K10 K11 K12 K13 K14].
+  destruct HP as [[m [f [A1 [A2 [A3 [A4 [A5 [A6 [A7 [A8 [A9 [A10 A11]]]]]]]]]]]]|[R1 [R2 [R3 [R4 [R5 R6]]]]]].
+  - left. exists m, f. rewrite K1, K2, K3. assert (Hb : t_bs t' = t_bs t) by (apply K7; lia).
+    rewrite Hb. repeat split; auto.
+    + intros Hc. pose proof (K11 Hc) as Hc0. rewrite K12 by (rewrite Hc; reflexivity). auto.
+    + destruct (is_active (t_state t)) eqn:Ea.
+      * destruct (K13 H eq_refl) as [Hs _]. assert (Hst : t_state t = Started) by (destruct (t_state t); try discriminate; [contradiction|reflexivity]).
+        rewrite <- (A9 Hst). exact Hs.
+      * destruct (K8 eq_refl) as [Hs [_ [_ [_ [Hsz _]]]]]. rewrite Hs in H. rewrite Hsz. apply A10. exact H.
+    + destruct (is_active (t_state t)) eqn:Ea.
+      * apply (K13 H eq_refl).
+      * destruct (K8 eq_refl) as [Hs [_ [_ [_ [Hsz Hpl]]]]]. rewrite Hs in H. rewrite Hsz, Hpl. apply A10. exact H.
+    + destruct (is_active (t_state t)) eqn:Ea.
+      * apply (K13 H eq_refl).
+      * destruct (K8 eq_refl) as [Hs [_ [Hacc _]]]. rewrite Hs in H. rewrite (tl_next_eq _ _ _ _ _ _ _ HN Hacc H). apply A10. exact H.
+    + destruct K14 as [->|[-> [Hp Hl]]]; [exact A11|]. apply Forall_app. split; [exact A11|]. constructor; [|constructor].
+      cbn. rewrite Hb, A5, A4 in Hl. destruct (pnr =? f_nr f) eqn:E.
+      * destruct Hl as [Hl|[_ Hl]]; lia.
+      * apply N.eqb_neq in E. destruct Hl as [Hl|[Hl _]]; [exact Hl|contradiction].
+  - right. unfold Recovered. rewrite K2, K3. repeat split; auto.
+    + intros Hc. rewrite K12 by (rewrite Hc; reflexivity). apply R4. apply K10. exact Hc.
+    + intros Hc. destruct (is_active (t_state t)) eqn:Ea.
+      * apply (K13 Hc eq_refl).
+      * destruct (K8 eq_refl) as [Hs [_ [_ [_ [Hsz Hpl]]]]]. rewrite Hs in Hc. rewrite Hsz, Hpl. apply R5. exact Hc.
+    + assert (Ho : Forall (fun op => lenN (snd op) <= t_bs t') acc).
+      { eapply Forall_impl; [|exact R6]. cbn. intros a Ha. lia. }
+      destruct K14 as [->|[-> [Hp Hl]]]; [exact Ho|]. apply Forall_app. split; [exact Ho|]. constructor; [|constructor].
+      cbn. destruct Hl as [Hl|[_ Hl]]; lia.
+Qed.
+
+Record flfi_post (t t' : transfer) (ch : bool) : Prop := {
+  ff_key : t_key t' = t_key t;
+  ff_name : t_name t' = t_name t;
+  ff_nr : t_nr t' = t_nr t;
+  ff_bs : t_bs t' = t_bs t;
+  ff_saved : t_saved t' = t_saved t;
+  ff_cap : t_cap t' = t_cap t;
+  ff_data : t_data t' = t_data t;
+  ff_nochange : ch = false -> t' = t;
+  ff_complete : t_state t = Complete -> t' = t /\ ch = false;
+  ff_complete' : t_state t' = Complete -> t_state t = Complete \/ t_state t = MissingStart
+}.
+
+Lemma flfi_TLoc c pre ops t acc t' ch :
+  TLoc ops t acc -> Prov c pre t acc -> check_finished t true = Ok (t', ch) ->
+  TLoc ops t' acc /\ Prov c pre t' acc /\ flfi_post t t' ch.
+Proof.
+  intros HT HP H. apply check_finished_true_spec in H. destruct H as [Hn H].
+  destruct HT as [S1 S2 S3 S4 S5 S6 S7 S8 S9 S10 S11].
+  destruct H as [[Hr [Hs [-> ->]]]|[[Hr [Hs [-> ->]]]|[Hr [-> ->]]]].
+  - (* MissingStart, everything received: complete *)
+    assert (Hsz : t_size t = 0).
+    { destruct HP as [[m [f [_ [_ [_ [_ [_ [_ [_ [A8 _]]]]]]]]]]|[_ [_ [_ [R4 _]]]]]; [contradiction|auto]. }
+    cbn zeta. cbn [t_size set_state]. rewrite Hsz. cbn [N.eqb].
+    split; [|split].
+    + constructor; cbn; auto; try discriminate. intros _. split; [lia|right; auto].
+    + destruct HP as [[m [f [_ [_ [_ [_ [_ [_ [_ [A8 _]]]]]]]]]]|[R1 [R2 [R3 [R4 [R5 R6]]]]]]; [contradiction|].
+      right. unfold Recovered. cbn. repeat split; auto; discriminate.
+    + constructor; cbn; auto; try discriminate. intros Hc. congruence.
+  - split; [constructor; auto|]. split; [exact HP|]. constructor; auto.
+  - split; [|split].
+    + constructor; cbn; auto; discriminate.
+    + destruct HP as [[m [f [A1 [A2 [A3 [A4 [A5 [A6 [A7 [A8 [A9 [A10 A11]]]]]]]]]]]]|[R1 [R2 [R3 [R4 [R5 R6]]]]]].
+      * left. exists m, f. cbn. repeat split; auto; discriminate.
+      * right. unfold Recovered. cbn. repeat split; auto; discriminate.
+    + constructor; cbn; auto; try discriminate.
+      intros Hc. exfalso. apply S7 in Hc. destruct Hc as [Hc _]. lia.
+Qed.
+
+(* ------------------------------------------------------------------ state-level invariant *)
+(* what is stored outside the transfer: handed-over data and the auto-saved file *)
+Definition SI (comp : list (nat * list N)) (fs : list (list N * list N)) (i : nat) (t : transfer)
+    (acc : list (N * list N)) : Prop :=
+  (forall d, lookup_nat i comp = Some d -> t_state t = Complete /\ d = concat (map snd acc)) /\
+  (forall p, t_saved t = Some p -> t_state t = Complete /\ lookup_path p fs = Some (concat (map snd acc))).
+
+Definition TInv (c : cfg) (pre : list msg) (comp : list (nat * list N)) (fs : list (list N * list N))
+    (i : nat) (t : transfer) : Prop :=
+  exists acc, TLoc (ops_for c (t_key t) pre) t acc /\ SI comp fs i t acc /\ Prov c pre t acc.
+
+(* the file system only grows, by files that did not exist *)
+Definition fs_ext (fs fs' : list (list N * list N)) : Prop :=
+  fs' = fs \/ exists p d, fs' = (p, d) :: fs /\ path_exists fs p = false.
+Lemma fs_ext_lookup fs fs' q x : fs_ext fs fs' -> lookup_path q fs = Some x -> lookup_path q fs' = Some x.
+Proof. intros [->|[p [d [-> Hp]]]] H; [exact H|]. apply lookup_path_cons_new; assumption. Qed.
+Lemma fs_ext_refl fs : fs_ext fs fs.
+Proof. left. reflexivity. Qed.
+
+Lemma SI_fs_ext comp fs fs' i t acc : fs_ext fs fs' -> SI comp fs i t acc -> SI comp fs' i t acc.
+Proof.
+  intros He [H1 H2]. split; [exact H1|]. intros p Hp. destruct (H2 p Hp) as [Ha Hb]. split; [exact Ha|].
+  eapply fs_ext_lookup; eassumption.
+Qed.
+Lemma TInv_fs_ext c pre comp fs fs' i t : fs_ext fs fs' -> TInv c pre comp fs i t -> TInv c pre comp fs' i t.
+Proof. intros He [acc [H1 [H2 H3]]]. exists acc. split; [exact H1|]. split; [eapply SI_fs_ext; eassumption|exact H3]. Qed.
+Lemma TInv_weaken c pre x comp fs i t : TInv c pre comp fs i t -> TInv c (pre ++ x) comp fs i t.
+Proof.
+  intros [acc [H1 [H2 H3]]]. exists acc. rewrite ops_for_app. split; [apply TLoc_weaken; exact H1|].
+  split; [exact H2|apply Prov_weaken; exact H3].
+Qed.
+
+Record Inv0 (c : cfg) (pre : list msg) (s : st) : Prop := {
+  inv_idx : forall k i, lookup_key k (s_idx s) = Some i ->
+                        exists t, nth_error (s_transfers s) i = Some t /\ t_key t = k;
+  inv_t : forall i t, nth_error (s_transfers s) i = Some t -> TInv c pre (s_completed s) (s_fs s) i t;
+  inv_comp : forall i d, lookup_nat i (s_completed s) = Some d -> (i < length (s_transfers s))%nat
+}.
+Definition pub_ok (s : st) : Prop :=
+  map (fun t => (t_key t, t_state t)) (s_pub s) = map (fun t => (t_key t, t_state t)) (s_transfers s).
+Definition Inv (c : cfg) (pre : list msg) (s : st) : Prop := Inv0 c pre s /\ pub_ok s.
+
+Lemma Inv0_weaken c pre x s : Inv0 c pre s -> Inv0 c (pre ++ x) s.
+Proof. intros [H1 H2 H3]. constructor; auto. intros i t Hi. apply TInv_weaken. auto. Qed.
+
+(* --- update_state *)
+Lemma TLoc_ho_t ops t acc : TLoc ops t acc -> TLoc ops (ho_t t) acc.
+Proof.
+  unfold ho_t. destruct (takes t); [|auto]. intros [S1 S2 S3 S4 S5 S6 S7 S8 S9 S10 S11].
+  constructor; cbn; auto. intros Hc. lia.
+Qed.
+Lemma ho_t_static t : t_key (ho_t t) = t_key t /\ t_state (ho_t t) = t_state t /\ t_saved (ho_t t) = t_saved t /\
+                      t_name (ho_t t) = t_name t /\ t_nr (ho_t t) = t_nr t /\ t_bs (ho_t t) = t_bs t /\ t_size (ho_t t) = t_size t
+                      /\ t_payload (ho_t t) = t_payload t.
+Proof. unfold ho_t. destruct (takes t); cbn; repeat split; reflexivity. Qed.
+Lemma Prov_ho_t c pre t acc : Prov c pre t acc -> Prov c pre (ho_t t) acc.
+Proof.
+  destruct (ho_t_static t) as [E1 [E2 [E3 [E4 [E5 [E6 [E7 E8]]]]]]].
+  intros [[m [f H]]|H]; [left; exists m, f|right; unfold Recovered in *]; rewrite ?E1, ?E2, ?E4, ?E5, ?E6, ?E7, ?E8; exact H.
+Qed.
+
+Lemma update_state_inv c pre s s' : update_state s = Ok s' -> Inv0 c pre s -> Inv c pre s'.
+Proof.
+  unfold update_state, add_chk. destruct (s_gen s + 1 <=? u32max); cbn [bind]; [|discriminate].
+  intros H [H1 H2 H3]. inversion H; subst s'; clear H. split; [|reflexivity]. constructor; cbn.
+  - intros k i Hk. destruct (H1 k i Hk) as [t [Ht Hkey]]. exists (ho_t t). rewrite nth_error_map, Ht. cbn.
+    split; [reflexivity|]. destruct (ho_t_static t) as [E1 _]. congruence.
+  - intros i t' Hi. rewrite nth_error_map in Hi. destruct (nth_error (s_transfers s) i) as [t|] eqn:Et; [|discriminate].
+    cbn in Hi. inversion Hi; subst t'; clear Hi. destruct (H2 i t Et) as [acc [T1 [[T2 T3] T4]]].
+    exists acc. destruct (ho_t_static t) as [E1 [E2 [E3 _]]]. rewrite E1. split; [apply TLoc_ho_t; exact T1|].
+    split; [|apply Prov_ho_t; exact T4]. split.
+    + intros d Hd. rewrite lookup_nat_app in Hd. destruct (lookup_nat i (taken 0 (s_transfers s))) as [d0|] eqn:Ek.
+      * inversion Hd; subst d0. apply lookup_taken in Ek. destruct Ek as [t0 [_ [Hn [Htk ->]]]].
+        rewrite Nat.sub_0_r, Et in Hn. inversion Hn; subst t0. unfold takes in Htk. apply andb_true_iff in Htk.
+        destruct Htk as [Hne Hst]. apply tstate_eqb_spec in Hst. rewrite E2. split; [exact Hst|].
+        apply negb_true_iff, bytes_eqb_nil_false in Hne. destruct (tl_d2 _ _ _ T1) as [Hd0|Hd0]; [contradiction|exact Hd0].
+      * rewrite E2. apply T2. exact Hd.
+    + rewrite E2, E3. exact T3.
+  - intros i d Hd. rewrite map_length. rewrite lookup_nat_app in Hd.
+    destruct (lookup_nat i (taken 0 (s_transfers s))) as [d0|] eqn:Ek; [|eauto].
+    apply lookup_taken in Ek. destruct Ek as [t0 [_ [Hn _]]]. rewrite Nat.sub_0_r in Hn.
+    apply nth_error_Some. rewrite Hn. discriminate.
+Qed.
+
+(* --- check_auto_save *)
+Lemma check_auto_save_spec c t fs t1 fs1 acc ops :
+  check_auto_save c t fs = (t1, fs1) -> TLoc ops t acc -> t_state t = Complete ->
+  fs_ext fs fs1 /\ TLoc ops t1 acc /\
+  t_key t1 = t_key t /\ t_state t1 = t_state t /\ t_name t1 = t_name t /\ t_nr t1 = t_nr t /\ t_bs t1 = t_bs t /\
+  t_size t1 = t_size t /\ t_payload t1 = t_payload t /\
+  (forall p, t_saved t1 = Some p -> t_saved t = Some p \/ lookup_path p fs1 = Some (concat (map snd acc))).
+Proof.
+  unfold check_auto_save. intros H HT Hst.
+  assert (Hid : (t1, fs1) = (t, fs) -> fs_ext fs fs1 /\ TLoc ops t1 acc /\
+    t_key t1 = t_key t /\ t_state t1 = t_state t /\ t_name t1 = t_name t /\ t_nr t1 = t_nr t /\ t_bs t1 = t_bs t /\
+    t_size t1 = t_size t /\ t_payload t1 = t_payload t /\
+    (forall p, t_saved t1 = Some p -> t_saved t = Some p \/ lookup_path p fs1 = Some (concat (map snd acc)))).
+  { intros E. inversion E; subst. split; [apply fs_ext_refl|]. split; [exact HT|]. repeat split; auto. }
+  destruct (c_glob c) as [g|]; [|apply Hid; congruence].
+  destruct (tstate_eqb (t_state t) Complete && negb (bytes_eqb (t_data t) []) && g (t_name t)) eqn:Ec; [|apply Hid; congruence].
+  apply andb_true_iff in Ec. destruct Ec as [Ec _]. apply andb_true_iff in Ec. destruct Ec as [_ Ene].
+  apply negb_true_iff, bytes_eqb_nil_false in Ene.
+  assert (Hdata : t_data t = concat (map snd acc)) by (destruct (tl_d2 _ _ _ HT); [contradiction|assumption]).
+  set (path := path_join (save_dir c) (base_name t)) in H.
+  assert (Hdrop : forall t0, TLoc ops t0 acc -> t_state t0 = Complete ->
+                    TLoc ops (if negb (c_allow_save c) && (0 <? t_cap t0) then set_buf 0 [] t0 else t0) acc).
+  { intros t0 [S1 S2 S3 S4 S5 S6 S7 S8 S9 S10 S11] Hc. destruct (negb (c_allow_save c) && (0 <? t_cap t0)); [|constructor; auto].
+    constructor; cbn; auto. intros Hx; lia. }
+  destruct (negb (path_exists fs path)) eqn:Ex.
+  - inversion H; subst t1 fs1; clear H. split.
+    { right. exists path, (t_data t). split; [reflexivity|]. apply negb_true_iff in Ex. exact Ex. }
+    split.
+    { apply (Hdrop (set_saved (Some path) t)); [|exact Hst]. destruct HT as [S1 S2 S3 S4 S5 S6 S7 S8 S9 S10 S11]. constructor; cbn; auto. }
+    cbn [t_cap set_saved]. destruct (negb (c_allow_save c) && (0 <? t_cap t)); cbn; repeat split; auto.
+    + intros p Hp. inversion Hp; subst p. right. rewrite bytes_eqb_refl. rewrite Hdata. reflexivity.
+    + intros p Hp. inversion Hp; subst p. right. rewrite bytes_eqb_refl. rewrite Hdata. reflexivity.
+  - inversion H; subst t1 fs1; clear H. split; [apply fs_ext_refl|]. split; [apply Hdrop; assumption|].
+    destruct (negb (c_allow_save c) && (0 <? t_cap t)); cbn; repeat split; auto.
+Qed.
+
+(* --- pushing and replacing a transfer *)
+Lemma push_inv0 c pre s t acc :
+  Inv0 c pre s -> TLoc (ops_for c (t_key t) pre) t acc -> Prov c pre t acc -> t_saved t = None ->
+  Inv0 c pre (push_transfer s t).
+Proof.
+  intros [H1 H2 H3] HT HP Hs. constructor; cbn.
+  - intros k i Hk. destruct (key_eqb k (t_key t)) eqn:E.
+    + inversion Hk; subst i. exists t. rewrite nth_error_app2 by lia. rewrite Nat.sub_diag. cbn.
+      apply key_eqb_spec in E. auto.
+    + destruct (H1 k i Hk) as [t0 [Ht0 Hk0]]. exists t0. split; [|exact Hk0].
+      rewrite nth_error_app1; [exact Ht0|]. apply nth_error_Some. rewrite Ht0. discriminate.
+  - intros i t0 Hi. destruct (Nat.lt_ge_cases i (length (s_transfers s))) as [Hlt|Hge].
+    + rewrite nth_error_app1 in Hi by exact Hlt. apply H2. exact Hi.
+    + rewrite nth_error_app2 in Hi by exact Hge. destruct (i - length (s_transfers s))%nat as [|n] eqn:En; cbn in Hi.
+      2:{ destruct n; discriminate. }
+      inversion Hi; subst t0. exists acc. split; [exact HT|]. split; [|exact HP]. split.
+      * intros d Hd. apply H3 in Hd. lia.
+      * intros p Hp. congruence.
+  - intros i d Hd. rewrite app_length. cbn. apply H3 in Hd. lia.
+Qed.
+
+Lemma put_inv0 c pre s i t t1 fs1 :
+  Inv0 c pre s -> nth_error (s_transfers s) i = Some t -> t_key t1 = t_key t -> fs_ext (s_fs s) fs1 ->
+  TInv c pre (s_completed s) fs1 i t1 ->
+  Inv0 c pre (mkSt (replace_nth i t1 (s_transfers s)) (s_idx s) (s_completed s) fs1 (s_gen s) (s_pub s)).
+Proof.
+  intros [H1 H2 H3] Ht Hk He HT.
+  assert (Hl : (i < length (s_transfers s))%nat) by (apply nth_error_Some; rewrite Ht; discriminate).
+  constructor; cbn.
+  - intros k j Hj. destruct (H1 k j Hj) as [t0 [Ht0 Hk0]]. destruct (Nat.eq_dec j i) as [->|Hne].
+    + exists t1. rewrite nth_error_replace_same by exact Hl. split; [reflexivity|]. congruence.
+    + exists t0. rewrite nth_error_replace_other by auto. auto.
+  - intros j t0 Hj. apply nth_error_replace in Hj. destruct Hj as [[-> [-> _]]|[Hne Hj]]; [exact HT|].
+    eapply TInv_fs_ext; [exact He|]. apply H2. exact Hj.
+  - intros j d Hd. rewrite replace_nth_length. eauto.
+Qed.
+
+Lemma pub_ok_put s i t t1 fs1 :
+  pub_ok s -> nth_error (s_transfers s) i = Some t -> t_key t1 = t_key t -> t_state t1 = t_state t ->
+  pub_ok (mkSt (replace_nth i t1 (s_transfers s)) (s_idx s) (s_completed s) fs1 (s_gen s) (s_pub s)).
+Proof.
+  unfold pub_ok. cbn. intros -> Ht Hk Hs. clear fs1.
+  revert i Ht. induction (s_transfers s) as [|a l IH]; intros [|i] Ht; cbn in *; try discriminate.
+  - inversion Ht; subst. rewrite Hk, Hs. reflexivity.
+  - f_equal. apply IH. exact Ht.
+Qed.
+
+(* --- one message *)
+Lemma ops_of_not_flda c k m : flda_op c m = None -> ops_of c k m = [].
+Proof. unfold ops_of. intros ->. reflexivity. Qed.
+
+Lemma after_change_inv c pre s i t t' s' acc' :
+  Inv0 c pre s -> nth_error (s_transfers s) i = Some t -> t_key t' = t_key t ->
+  TLoc (ops_for c (t_key t') pre) t' acc' -> Prov c pre t' acc' ->
+  (forall d, lookup_nat i (s_completed s) = Some d -> t_state t' = Complete /\ d = concat (map snd acc')) ->
+  (forall p, t_saved t' = Some p -> t_state t' = Complete /\ lookup_path p (s_fs s) = Some (concat (map snd acc'))) ->
+  after_change c s i t' = Ok s' -> Inv c pre s'.
+Proof.
+  intros HI Ht Hk HT HP Hc Hs H. unfold after_change in H.
+  destruct (tstate_eqb (t_state t') Complete) eqn:Est.
+  - apply tstate_eqb_spec in Est. destruct (check_auto_save c t' (s_fs s)) as [t1 fs1] eqn:Eas.
+    destruct (check_auto_save_spec _ _ _ _ _ _ _ Eas HT Est) as [He [HT1 [K1 [K2 [K3 [K4 [K5 [K6 [K7 K8]]]]]]]]].
+    eapply update_state_inv; [exact H|]. eapply put_inv0; eauto; [congruence|].
+    exists acc'. rewrite K1. split; [exact HT1|]. split.
+    + split; [intros d Hd; rewrite K2; auto|]. intros p Hp. rewrite K2. split; [exact Est|].
+      destruct (K8 p Hp) as [Ho|Hn]; [|exact Hn]. eapply fs_ext_lookup; [exact He|]. apply Hs. exact Ho.
+    + destruct HP as [[m [f HA]]|HR]; [left; exists m, f|right; unfold Recovered in *]; rewrite ?K1, ?K2, ?K3, ?K4, ?K5, ?K6, ?K7; assumption.
+  - eapply update_state_inv; [exact H|]. eapply put_inv0; eauto; [apply fs_ext_refl|].
+    exists acc'. split; [exact HT|]. split; [split; assumption|exact HP].
+Qed.
+
+Lemma step_inv c pre s m s' b : step c s m = Ok (s', b) -> Inv c pre s -> Inv c (pre ++ [m]) s'.
+Proof.
+  intros H [HI Hpub]. assert (HW : Inv0 c (pre ++ [m]) s) by (apply Inv0_weaken; exact HI).
+  unfold step in H. destruct (classify c m) eqn:Ec.
+  - (* FLST *)
+    unfold step_flst in H.
+    destruct ((0 <? f_nr (parse_flst (m_args m))) && (0 <? f_bs (parse_flst (m_args m)))) eqn:Econd; cbn [bind] in H.
+    2:{ inversion H; subst. split; assumption. }
+    destruct (with_capacity _) as [cap| |] eqn:Ecap; cbn [bind] in H; try discriminate.
+    match type of H with context [update_state (push_transfer s ?t0)] => set (t := t0) in H end.
+    destruct (update_state (push_transfer s t)) as [s1| |] eqn:Eu; cbn [bind] in H; try discriminate.
+    inversion H; subst s1 b; clear H. eapply update_state_inv; [exact Eu|].
+    pose proof Econd as Econd'. apply andb_true_iff in Econd'. destruct Econd' as [En Eb]. apply N.ltb_lt in En, Eb.
+    apply (push_inv0 _ _ _ _ []); auto.
+    + constructor; cbn; auto; try discriminate; try lia. apply sl_nil.
+    + left. exists m, (parse_flst (m_args m)). split; [apply in_or_app; right; left; reflexivity|].
+      split; [unfold flst_of; rewrite Ec; cbn zeta; rewrite Econd; reflexivity|].
+      cbn. repeat split; auto; try discriminate. constructor.
+  - (* FLDA *)
+    unfold step_flda in H. destruct (flda_args (m_args m)) as [[[serial pnr] raw]|] eqn:Ea; cbn [bind] in H.
+    2:{ inversion H; subst. split; assumption. }
+    set (k := (m_ecu m, m_lc m, serial)) in *.
+    assert (Hop : flda_op c m = Some (k, (pnr, raw))) by (unfold flda_op; rewrite Ec, Ea; reflexivity).
+    assert (Hops : ops_for c k (pre ++ [m]) = ops_for c k pre ++ [(pnr, raw)]).
+    { rewrite ops_for_snoc. unfold ops_of. rewrite Hop, key_eqb_refl. reflexivity. }
+    destruct (flda_apply c s k pnr raw) as [s1| |] eqn:Ef; cbn [bind] in H; try discriminate.
+    inversion H; subst s1 b; clear H. unfold flda_apply in Ef.
+    destruct (lookup_key k (s_idx s)) as [i|] eqn:El.
+    + destruct (inv_idx _ _ _ HI k i El) as [t [Ht Hk]]. rewrite Ht in Ef.
+      destruct (add_flda t pnr raw) as [[t' ch]| |] eqn:Eadd; cbn [bind] in Ef; try discriminate.
+      destruct (inv_t _ _ _ HI i t Ht) as [acc [T1 [[T2 T3] T4]]]. rewrite Hk in T1.
+      destruct (add_flda_TLoc _ _ _ _ _ _ _ T1 Eadd) as [acc' [T1' HP]].
+      rewrite <- Hops in T1'. pose proof (Prov_add_flda _ (pre ++ [m]) _ _ _ _ _ _ _ (Prov_weaken _ _ [m] _ _ T4) HP) as T4'.
+      assert (Hk' : t_key t' = k) by (rewrite (fp_key _ _ _ _ _ _ _ HP); exact Hk).
+      assert (Hcomp : forall d, lookup_nat i (s_completed s) = Some d -> t_state t' = Complete /\ d = concat (map snd acc')).
+      { intros d Hd. destruct (T2 d Hd) as [Hst ->]. assert (Hin : is_active (t_state t) = false) by (rewrite Hst; reflexivity).
+        destruct (fp_inactive _ _ _ _ _ _ _ HP Hin) as [E1 [_ [E2 _]]]. rewrite E1, E2. auto. }
+      assert (Hsav : forall p, t_saved t' = Some p -> t_state t' = Complete /\ lookup_path p (s_fs s) = Some (concat (map snd acc'))).
+      { intros p Hp. rewrite (fp_saved _ _ _ _ _ _ _ HP) in Hp. destruct (T3 p Hp) as [Hst Hl].
+        assert (Hin : is_active (t_state t) = false) by (rewrite Hst; reflexivity).
+        destruct (fp_inactive _ _ _ _ _ _ _ HP Hin) as [E1 [_ [E2 _]]]. rewrite E1, E2. auto. }
+      destruct ch.
+      * eapply after_change_inv; try exact Ef; eauto; try congruence.
+      * inversion Ef; subst s'; clear Ef. unfold put_transfer. split.
+        -- eapply put_inv0; eauto; [congruence|apply fs_ext_refl|]. exists acc'. rewrite Hk'. split; [exact T1'|]. split; [split; assumption|exact T4'].
+        -- eapply pub_ok_put; eauto; [congruence|]. apply (fp_nochange _ _ _ _ _ _ _ HP). reflexivity.
+    + destruct (pnr =? 1) eqn:Ep.
+      2:{ inversion Ef; subst. split; assumption. }
+      apply N.eqb_eq in Ep. subst pnr.
+      destruct (with_capacity _) as [cap| |] eqn:Ecap; cbn [bind] in Ef; try discriminate.
+      match type of Ef with context [add_flda ?t0 1 raw] => set (t := t0) in Ef end.
+      destruct (add_flda t 1 raw) as [[t' ch]| |] eqn:Eadd; cbn [bind] in Ef; try discriminate.
+      assert (T1 : TLoc (ops_for c k pre) t []).
+      { unfold t. constructor; cbn; auto; try discriminate; try lia. apply sl_nil. intros _. unfold u64max. lia. }
+      assert (T4 : Prov c (pre ++ [m]) t []).
+      { right. unfold t, Recovered. cbn. repeat split; auto; try discriminate. }
+      destruct (add_flda_TLoc _ _ _ _ _ _ _ T1 Eadd) as [acc' [T1' HP]].
+      rewrite <- Hops in T1'. pose proof (Prov_add_flda _ _ _ _ _ _ _ _ _ T4 HP) as T4'.
+      assert (Hk' : t_key t' = k) by (rewrite (fp_key _ _ _ _ _ _ _ HP); reflexivity).
+      eapply update_state_inv; [exact Ef|]. apply (push_inv0 _ _ _ _ acc'); auto.
+      * rewrite Hk'. exact T1'.
+      * rewrite (fp_saved _ _ _ _ _ _ _ HP). reflexivity.
+  - (* FLFI *)
+    unfold step_flfi in H. set (k := (m_ecu m, m_lc m, flfi_serial (m_args m))) in *.
+    destruct (flfi_apply c s k) as [s1| |] eqn:Ef; cbn [bind] in H; try discriminate.
+    inversion H; subst s1 b; clear H. unfold flfi_apply in Ef.
+    destruct (lookup_key k (s_idx s)) as [i|] eqn:El.
+    2:{ inversion Ef; subst. split; assumption. }
+    destruct (inv_idx _ _ _ HW k i El) as [t [Ht Hk]]. rewrite Ht in Ef.
+    destruct (check_finished t true) as [[t' ch]| |] eqn:Ecf; cbn [bind] in Ef; try discriminate.
+    destruct (inv_t _ _ _ HW i t Ht) as [acc [T1 [[T2 T3] T4]]].
+    destruct (flfi_TLoc _ _ _ _ _ _ _ T1 T4 Ecf) as [T1' [T4' HP]].
+    destruct ch.
+    + eapply after_change_inv; try exact Ef; eauto.
+      * apply (ff_key _ _ _ HP).
+      * rewrite (ff_key _ _ _ HP). exact T1'.
+      * intros d Hd. destruct (T2 d Hd) as [Hst ->]. destruct (ff_complete _ _ _ HP Hst) as [-> _]. auto.
+      * intros p Hp. rewrite (ff_saved _ _ _ HP) in Hp. destruct (T3 p Hp) as [Hst Hl]. destruct (ff_complete _ _ _ HP Hst) as [-> _]. auto.
+    + pose proof (ff_nochange _ _ _ HP eq_refl) as ->. inversion Ef; subst s'; clear Ef. unfold put_transfer.
+      rewrite (replace_nth_id _ _ _ Ht). destruct s; cbn. split; [exact HW|exact Hpub].
+  - inversion H; subst. split; assumption.
 Qed.
